@@ -186,7 +186,9 @@ func (c *MapCodec) Read(data []byte, ptr unsafe.Pointer, wt plenccore.WireType) 
 
 	// ptr is a pointer to a map pointer
 	if *(*unsafe.Pointer)(ptr) == nil {
-		*(*unsafe.Pointer)(ptr) = unsafe.Pointer(reflect.MakeMapWithSize(c.rtype, int(count)).Pointer())
+		// Size the map for the entries that are really there, not for what
+		// the count claims
+		*(*unsafe.Pointer)(ptr) = unsafe.Pointer(reflect.MakeMapWithSize(c.rtype, entriesPresent(data[n:], count)).Pointer())
 	}
 	mp := *(*unsafe.Pointer)(ptr)
 
